@@ -145,7 +145,9 @@ impl MetricSink for GateSink {
                 tr().ev(json!({"ev":"wleave","m":m,"o":"err","msg":msg}));
                 s.n_err.fetch_add(1, Ordering::SeqCst);
                 s.left.fetch_add(1, Ordering::SeqCst);
-                Err(io::Error::new(io::ErrorKind::BrokenPipe, msg))
+                // every io::ErrorKind in turn (C16: "returns an error", whatever its kind)
+                let h: usize = m.bytes().fold(7usize, |a, b| a.wrapping_mul(31).wrapping_add(b as usize));
+                Err(io::Error::new(crate::client::ALL_KINDS[h % crate::client::ALL_KINDS.len()].1, msg))
             }
             Out::Panic => {
                 tr().ev(json!({"ev":"wleave","m":m,"o":"panic","msg":""}));
